@@ -163,7 +163,8 @@ def chain(index, rep, db):
     inl = Inliner(io)
     P = [a.arg for a in io.args.args]
     rets = [r for r in io.body if isinstance(r, ast.Return)]
-    got = inl.src(rets[-1].value) if rets and rets[-1].value is not None else ""
+    from .core import plain_text
+    got = plain_text(inl.expr(rets[-1].value)) if rets and rets[-1].value is not None else ""
     # returned = interpreter.interpret_results(Extractor(consts).extract_results(model, variables, time_consts), title), with this function's own parameters
     want = f"{P[5]}.interpret_results(Extractor({P[1]}).extract_results({P[2]}, {P[3]}, {P[4]}), {P[-1]})" if len(P) >= 9 else None
     rep.check(want is not None and got == want, rule, "wiring:same-solve",
@@ -176,7 +177,7 @@ def chain(index, rep, db):
         inl_ro = Inliner(ro)
         RP = [a.arg for a in ro.args.args]
         from .core import through_helpers
-        a4 = [through_helpers(index.methods(RUN, "ScenarioRunner"), inl_ro, a) or ["?"] for a in call[0].args[:4]]
+        a4 = [[plain_text(t_) for t_ in (through_helpers(index.methods(RUN, "ScenarioRunner"), inl_ro, a) or ["?"])] for a in call[0].args[:4]]
         # (constants, model, variables, monthly constants): constants and monthly constants are run_optimizer's own first two parameters,
         # model and variables are slots 0 and 1 of an optimiser call made with those same parameters (on every branch)
         ok = a4[0] == [RP[1]] and a4[3] == [RP[2]] and len(a4[1]) == len(a4[2]) >= 1
